@@ -260,6 +260,51 @@ func genScenario(r *vf.Rand, i int) (Scenario, bool) {
 	return Scenario{cfg, p, k}, true
 }
 
+// matrix is the fixed part of every run: for each executor kind, every failure
+// site with every mode it can express, on small programs in which the failing
+// function is certainly reached (the random scenarios add positions and shapes).
+func matrix() []Scenario {
+	cols := [][]int64{{0, 1, 2, 3, 4, 0, 1, 2, 3, 4, 0, 1}, {1, 2, 3, 4, 5, 6, 7, 8, 9, 10, 11, 12}}
+	src := prog.Node{Op: "const", N: 3, Types: []string{"i", "i"}, Cols: cols}
+	rdr := prog.Node{Op: "readerfunc", N: 2, Types: []string{"i", "i"}, A: 20, B: 3, N2: 2}
+	f := func(mode string, row int, once, ateof bool) *prog.Fail {
+		return &prog.Fail{Mode: mode, Shard: -1, Row: row, Once: once, AtEOF: ateof}
+	}
+	col0 := prog.Expr{K: "col", I: 0}
+	type pn struct {
+		p    prog.Prog
+		node int
+	}
+	mk := func(nodes ...prog.Node) prog.Prog { return prog.Prog{Nodes: nodes} }
+	with := func(n prog.Node, fl *prog.Fail) prog.Node { n.Fail = fl; return n }
+	var ps []pn
+	for _, fl := range []*prog.Fail{f("error", 1, false, false), f("panic", 2, false, false), f("temp", 1, true, false)} {
+		ps = append(ps, pn{mk(with(rdr, fl), prog.Node{Op: "reduce", In: []int{0}, Comb: "sum"}), 0})
+	}
+	for _, fl := range []*prog.Fail{f("error", 1, false, false), f("error", 1, false, true), f("panic", 1, false, false), f("temp", 1, true, false)} {
+		ps = append(ps, pn{mk(src, with(prog.Node{Op: "writerfunc", In: []int{0}}, fl), prog.Node{Op: "reshuffle", In: []int{1}}), 1})
+	}
+	ps = append(ps, pn{mk(src, with(prog.Node{Op: "map", In: []int{0}, Exprs: []prog.Expr{col0, {K: "col", I: 1}}}, f("panic", 2, false, false))), 1})
+	ps = append(ps, pn{mk(src, with(prog.Node{Op: "filter", In: []int{0}, Exprs: []prog.Expr{{K: "true"}}}, f("panic", 1, false, false)), prog.Node{Op: "reduce", In: []int{1}, Comb: "max"}), 1})
+	ps = append(ps, pn{mk(src, with(prog.Node{Op: "flatmap", In: []int{0}, Exprs: []prog.Expr{{K: "const", A: 2}}}, f("panic", 3, false, false))), 1})
+	ps = append(ps, pn{mk(src, with(prog.Node{Op: "fold", In: []int{0}}, f("panic", 1, false, false))), 1})
+	// the combiner is called only when a key is met twice: in the task-local table, in
+	// the per-partition buffer, and when the consumer merges its inputs
+	ps = append(ps, pn{mk(src, with(prog.Node{Op: "reduce", In: []int{0}, Comb: "sum"}, f("panic", 1, false, false))), 1})
+	ps = append(ps, pn{mk(src, with(prog.Node{Op: "reduce", In: []int{0}, Comb: "sum"}, f("panic", 4, false, false)), prog.Node{Op: "map", In: []int{1}, Exprs: []prog.Expr{col0}}), 1})
+	ps = append(ps, pn{mk(src, with(prog.Node{Op: "repartition", In: []int{0}, Exprs: []prog.Expr{col0}}, f("panic", 1, false, false))), 1})
+	ps = append(ps, pn{mk(src, with(prog.Node{Op: "repartition", In: []int{0}, Exprs: []prog.Expr{col0}}, f("badpart", 2, false, false))), 1})
+	ps = append(ps, pn{mk(src, with(prog.Node{Op: "scan", In: []int{0}}, f("error", 1, false, false))), 1})
+	ps = append(ps, pn{mk(src, prog.Node{Op: "reduce", In: []int{0}, Comb: "sum"}, with(prog.Node{Op: "scan", In: []int{1}}, f("panic", 1, false, false))), 2})
+	var out []Scenario
+	for _, cfg := range []prog.Cfg{{Kind: "local", Parallelism: 4}, {Kind: "bigmachine", Parallelism: 4, Procs: 2}, {Kind: "bigmachine", Parallelism: 4, Procs: 2, MachCombiner: true}} {
+		for _, x := range ps {
+			out = append(out, Scenario{cfg, x.p, x.node})
+		}
+	}
+	return out
+}
+
 func main() {
 	if len(os.Args) > 1 && os.Args[1] == "-child" {
 		child()
@@ -275,11 +320,13 @@ func main() {
 			os.Exit(2)
 		}
 	} else {
-		n := 70
+		n := 40
 		if opts.Tier == "thorough" {
 			n = 700
 		}
 		n *= opts.Scale
+		scs = append(scs, matrix()...)
+		n += len(scs)
 		root := vf.NewRand(opts.Seed)
 		for i := 0; len(scs) < n; i++ {
 			if sc, ok := genScenario(root.Split(), i); ok {
